@@ -654,12 +654,13 @@ class Interp(object):
         init, owner = cls.find("__init__")
         if init is not None:
             init(o, *args, **kwargs)
-        elif args or kwargs:
-            for eb in cls.ext_bases():
-                h = getattr(eb, "__axi_init__", None)
-                if h is not None:
-                    h(self, o, args, kwargs)
-                    return o
+            return o
+        for eb in cls.ext_bases():
+            h = getattr(eb, "__axi_init__", None)
+            if h is not None:
+                h(self, o, args, kwargs)
+                return o
+        if args or kwargs:
             raise AbstractError("%s() takes no arguments" % cls.name)
         return o
 
